@@ -5,10 +5,12 @@ go 1.23.4
 require (
 	github.com/containerd/nri v0.6.0
 	github.com/containers/nri-plugins v0.0.0
+	github.com/sirupsen/logrus v1.9.3
 	k8s.io/api v0.31.2
 	k8s.io/apimachinery v0.31.2
 	k8s.io/klog/v2 v2.130.1
 	k8s.io/kubelet v0.31.2
+	sigs.k8s.io/yaml v1.4.0
 )
 
 require (
@@ -48,7 +50,6 @@ require (
 	github.com/prometheus/client_model v0.6.1 // indirect
 	github.com/prometheus/common v0.55.0 // indirect
 	github.com/prometheus/procfs v0.15.1 // indirect
-	github.com/sirupsen/logrus v1.9.3 // indirect
 	github.com/spf13/pflag v1.0.5 // indirect
 	github.com/x448/float16 v0.8.4 // indirect
 	go.opentelemetry.io/otel v1.19.0 // indirect
@@ -79,7 +80,6 @@ require (
 	sigs.k8s.io/controller-runtime v0.16.2 // indirect
 	sigs.k8s.io/json v0.0.0-20221116044647-bc3834ca7abd // indirect
 	sigs.k8s.io/structured-merge-diff/v4 v4.4.1 // indirect
-	sigs.k8s.io/yaml v1.4.0 // indirect
 )
 
 replace github.com/containers/nri-plugins => /repo
